@@ -20,6 +20,7 @@ CONSTANTS
   SetOps = {}
   MatchSets = {}
   GroupIncs = {}
+  Fixes = %s
   DBSeries = 0
   DBA = {}
   DBB = {}
@@ -50,14 +51,15 @@ BASE = dict(
     MaxDepth=1, MaxStack=2, MaxBinNest=1,
     MatcherKinds=S("none", "eq"), Leaves=S("sel"), UnFns=S(), AggOps=S("sum"),
     AggLabelSets=S(S("a")), ArithOps=S("*"), CmpOps=S(), SetOps=S("and"),
-    MatchSets=S(S(), S("a")), GroupIncs=S(),
+    MatchSets=S(S(), S("a")), GroupIncs=S(), Fixes=S(),
     DBSeries=1, DBA=S("x", "y"), DBB=S("x"), DBC=S(), DBVals=S(1),
 )
 
 
-def cfg_text(consts, invariants):
+def cfg_text(consts, invariants, fixes=frozenset()):
     c = dict(BASE)
     c.update(consts)
+    c["Fixes"] = fixes
     lines = ["SPECIFICATION Spec", "CONSTANTS"]
     for k in sorted(c):
         lines.append("  %s = %s" % (k, tla(c[k])))
@@ -82,6 +84,37 @@ MC_WIDE1 = dict(MaxDepth=1, MatcherKinds=ALL_MATCH, Leaves=S("sel", "seloff", "n
                 DBSeries=1, DBA=S("x", "y"), DBB=S("x"), DBC=S("x"), DBVals=S(1, 2))
 # simulation over the full vocabulary
 SIM_FULL = dict(MC_WIDE1, MaxDepth=3, MaxBinNest=2, MaxStack=3)
+
+
+def _sel(m, ma="none", mb="none"):
+    return {"k": "sel", "m": m, "ma": ma, "mb": mb, "off": False}
+
+
+def _agg(op, mod, ls, e):
+    return {"k": "agg", "op": op, "mod": mod, "ls": ls, "e": e}
+
+
+def _bin(op, vm, ls, l, r, grp="none", inc=(), bool_=False):
+    return {"k": "bin", "op": op, "bool": bool_, "vm": vm, "ls": list(ls), "grp": grp, "inc": list(inc), "l": l, "r": r}
+
+
+PROBES = {
+    # fixes/f6-canjoin-ignoring.patch: a label listed in ignoring() no longer makes a join impossible
+    "F6": _bin("and", "ign", ["a"], _sel("m", "eq"), _agg("sum", "none", [], _sel("n"))),
+    # fixes/f12-canjoin-on-forced-labels.patch: on(a) with `a` on neither side is a valid join
+    "F12": _bin("and", "on", ["a"], _agg("sum", "none", [], _sel("m")), _agg("sum", "without", ["a"], _sel("m"))),
+}
+
+
+def detect_fixes(ctx):
+    """Which of the proposed repairs the analysed tree contains - decides which variant of the implementation-shaped
+    side (constant Fixes of LabelFlow.tla) is model-checked and bound; verdicts never depend on it."""
+    names = sorted(PROBES)
+    cp = write_ndjson(ctx.path("lflow_probe.ndjson"), [{"e": PROBES[n], "dbs": []} for n in names])
+    tp = ctx.path("lflow_probe_trace.ndjson")
+    ctx.vh("exec-lflow", cp, tp, env={"LF_NDB": "1", "LF_NPREM": "1", "LF_NCONC": "0"})
+    recs = read_ndjson(tp)
+    return frozenset(n for n, r in zip(names, recs) if not r["flags"])
 
 
 def shape_sig(v):
@@ -112,11 +145,13 @@ def run(ctx, prop, cases_override=None):
     workers = int(__import__("os").environ.get("LF_WORKERS", "0")) or None
     cases, leads = [], []
     mc_runs = []
+    fixes = detect_fixes(ctx)
+    log("[lflow] repairs present in the analysed tree: %s" % (sorted(fixes) or "none"))
     if cases_override is None:
         # ---- MC: exhaustive small configurations; model-level counterexamples are leads, replayed below
         mcs = [("join", MC_JOIN), ("wide1", MC_WIDE1)]
         for name, consts in mcs:
-            r = ctx.tlc("LabelFlow", "lf_mc_%s.cfg" % name, files={"lf_mc_%s.cfg" % name: cfg_text(consts, [lead_inv, "EmitCase"])},
+            r = ctx.tlc("LabelFlow", "lf_mc_%s.cfg" % name, files={"lf_mc_%s.cfg" % name: cfg_text(consts, [lead_inv, "EmitCase"], fixes)},
                         timeout=3000, workers=workers, tag="MC-" + name)
             mc_runs.append(r)
             ls = [v[0] for v in prints(r, "LEAD")]
@@ -126,7 +161,7 @@ def run(ctx, prop, cases_override=None):
             cases += cs
         # ---- GEN: simulation over the full vocabulary
         nsim = 60000 if thorough else 1500
-        g = ctx.tlc("LabelFlow", "lf_sim.cfg", files={"lf_sim.cfg": cfg_text(SIM_FULL, ["EmitCase"])}, simulate=nsim, depth=9,
+        g = ctx.tlc("LabelFlow", "lf_sim.cfg", files={"lf_sim.cfg": cfg_text(SIM_FULL, ["EmitCase"], fixes)}, simulate=nsim, depth=9,
                     timeout=3000, workers=workers, tag="GEN-sim")
         cases += [v[0] for v in prints(g, "CASE")]
     else:
@@ -165,7 +200,7 @@ def run(ctx, prop, cases_override=None):
     for off in range(0, len(trace), chunk):
         part = trace[off:off + chunk]
         ppath = write_ndjson(ctx.path("lflow_part.ndjson"), part)
-        j = ctx.tlc("LabelFlowTrace", "LabelFlowTrace.cfg", workers=1, files={"lflow_trace.ndjson": ppath, "LabelFlowTrace.cfg": TRACE_CFG},
+        j = ctx.tlc("LabelFlowTrace", "LabelFlowTrace.cfg", workers=1, files={"lflow_trace.ndjson": ppath, "LabelFlowTrace.cfg": TRACE_CFG % tla(fixes)},
                     timeout=3000, heap="8g", tag="JUDGE")
         done = prints(j, "DONE")
         if not done or done[0][0] != len(part):
